@@ -22,11 +22,23 @@ type dagCase struct {
 	DupOf []int   `json:"dupOf"` // DupOf[i] >= 0: fetch i is an exact duplicate of that fetch
 	Order []int   `json:"order"` // presentation order
 	Nest  bool    `json:"nest"`  // response paths nested under the first dependency
+	// Prev, when set, is a plan the same Processor instances have processed before this one
+	// (a long-lived Processor): the result must not depend on it.
+	Prev *dagCase `json:"prev,omitempty"`
 }
 
 var dagPart = pbt.Part[dagCase]{Name: "dag-structural", Quick: 60000, Thorough: 1200000, Gen: genDag, Check: checkDag}
 
 func genDag(t *rapid.T) dagCase {
+	c := genOneDag(t)
+	if rapid.IntRange(0, 2).Draw(t, "prev") == 0 {
+		p := genOneDag(t)
+		c.Prev = &p
+	}
+	return c
+}
+
+func genOneDag(t *rapid.T) dagCase {
 	n := rapid.IntRange(2, 14).Draw(t, "n")
 	c := dagCase{Deps: make([][]int, n), DupOf: make([]int, n), Nest: rapid.Bool().Draw(t, "nest")}
 	for i := 0; i < n; i++ {
@@ -40,7 +52,24 @@ func genDag(t *rapid.T) dagCase {
 				d = c.DupOf[d]
 			}
 			c.DupOf[i] = d
-			c.Deps[i] = append([]int{}, c.Deps[d]...)
+			// an equal fetch below another producer has other dependencies (repaired finding:
+			// de-duplication used to keep only the survivor's)
+			// (its producers are drawn from the fetches before the original, so that merging
+			// the two cannot close a cycle)
+			if d == 0 || rapid.Bool().Draw(t, "dupsamedeps") {
+				c.Deps[i] = append([]int{}, c.Deps[d]...)
+				continue
+			}
+			k := rapid.IntRange(0, 2).Draw(t, "dk")
+			seen := map[int]bool{}
+			for j := 0; j < k; j++ {
+				x := rapid.IntRange(0, d-1).Draw(t, "dd")
+				if !seen[x] {
+					seen[x] = true
+					c.Deps[i] = append(c.Deps[i], x)
+				}
+			}
+			sort.Ints(c.Deps[i])
 			continue
 		}
 		k := rapid.IntRange(0, 3).Draw(t, "k")
@@ -78,11 +107,9 @@ func optionNames() []string {
 	return n
 }
 
-func checkDag(c dagCase, o *pbt.Rec) pbt.Verdict {
+// rawFetches renders the case as the flat fetch list the planner hands to the post-processor.
+func rawFetches(c dagCase) []*resolve.FetchItem {
 	n := len(c.Deps)
-	if len(c.Order) != n || len(c.DupOf) != n {
-		return pbt.Bad("malformed case")
-	}
 	rep := func(i int) int {
 		for c.DupOf[i] >= 0 {
 			i = c.DupOf[i]
@@ -97,27 +124,43 @@ func checkDag(c dagCase, o *pbt.Rec) pbt.Verdict {
 			path[i] = path[c.Deps[r][0]] + "." + path[i]
 		}
 	}
-	build := func() []*resolve.FetchItem {
-		var raw []*resolve.FetchItem
-		for _, i := range c.Order {
-			r := rep(i)
-			segs := strings.Split(path[i], ".")
-			var fp []resolve.FetchItemPathElement
-			for _, s := range segs {
-				fp = append(fp, resolve.FetchItemPathElement{Kind: resolve.FetchItemPathElementKindObject, Path: []string{s}})
-			}
-			raw = append(raw, &resolve.FetchItem{
-				Fetch: &resolve.SingleFetch{
-					FetchConfiguration: resolve.FetchConfiguration{Input: fmt.Sprintf(`{"method":"POST","url":"http://s%d","body":{"query":"{f%d}"}}`, r%3, r)},
-					FetchDependencies:  resolve.FetchDependencies{FetchID: i, DependsOnFetchIDs: append([]int{}, c.Deps[i]...)},
-					Info:               &resolve.FetchInfo{DataSourceID: fmt.Sprint("s", r%3), DataSourceName: fmt.Sprint("s", r%3), OperationType: ast.OperationTypeQuery},
-				},
-				FetchPath:    fp,
-				ResponsePath: path[i],
-			})
+	var raw []*resolve.FetchItem
+	for _, i := range c.Order {
+		r := rep(i)
+		segs := strings.Split(path[i], ".")
+		var fp []resolve.FetchItemPathElement
+		for _, s := range segs {
+			fp = append(fp, resolve.FetchItemPathElement{Kind: resolve.FetchItemPathElementKindObject, Path: []string{s}})
 		}
-		return raw
+		raw = append(raw, &resolve.FetchItem{
+			Fetch: &resolve.SingleFetch{
+				FetchConfiguration: resolve.FetchConfiguration{Input: fmt.Sprintf(`{"method":"POST","url":"http://s%d","body":{"query":"{f%d}"}}`, r%3, r)},
+				FetchDependencies:  resolve.FetchDependencies{FetchID: i, DependsOnFetchIDs: append([]int{}, c.Deps[i]...)},
+				Info:               &resolve.FetchInfo{DataSourceID: fmt.Sprint("s", r%3), DataSourceName: fmt.Sprint("s", r%3), OperationType: ast.OperationTypeQuery},
+			},
+			FetchPath:    fp,
+			ResponsePath: path[i],
+		})
 	}
+	return raw
+}
+
+func planOf(raw []*resolve.FetchItem) *plan.SynchronousResponsePlan {
+	return &plan.SynchronousResponsePlan{Response: &resolve.GraphQLResponse{Data: &resolve.Object{}, RawFetches: raw, Info: &resolve.GraphQLResponseInfo{OperationType: ast.OperationTypeQuery}}}
+}
+
+func checkDag(c dagCase, o *pbt.Rec) pbt.Verdict {
+	n := len(c.Deps)
+	if len(c.Order) != n || len(c.DupOf) != n {
+		return pbt.Bad("malformed case")
+	}
+	rep := func(i int) int {
+		for c.DupOf[i] >= 0 {
+			i = c.DupOf[i]
+		}
+		return i
+	}
+	build := func() []*resolve.FetchItem { return rawFetches(c) }
 	multiParent, antichain := false, false
 	for i := range c.Deps {
 		if len(c.Deps[i]) >= 2 {
@@ -125,9 +168,21 @@ func checkDag(c dagCase, o *pbt.Rec) pbt.Verdict {
 		}
 	}
 	for _, mode := range optionNames() {
-		p := &plan.SynchronousResponsePlan{Response: &resolve.GraphQLResponse{Data: &resolve.Object{}, RawFetches: build(), Info: &resolve.GraphQLResponseInfo{OperationType: ast.OperationTypeQuery}}}
-		postprocess.NewProcessor(optionSets[mode]...).Process(p)
+		p := planOf(build())
+		proc := postprocess.NewProcessor(optionSets[mode]...)
+		if c.Prev != nil && len(c.Prev.Order) == len(c.Prev.Deps) && len(c.Prev.DupOf) == len(c.Prev.Deps) {
+			proc.Process(planOf(rawFetches(*c.Prev)))
+			o.Label("processor-reused")
+		}
+		proc.Process(p)
 		root := p.Response.Fetches
+		if c.Prev != nil {
+			fresh := planOf(build())
+			postprocess.NewProcessor(optionSets[mode]...).Process(fresh)
+			if a, b := ftree.Dump(root), ftree.Dump(fresh.Response.Fetches); a != b {
+				return pbt.Bad("%s: the fetch tree depends on what the Processor processed before\n reused Processor: %s\n fresh Processor:  %s", mode, a, b)
+			}
+		}
 		leaves, _, dup := ftree.Leaves(root)
 		if dup != nil {
 			return pbt.Bad("%s: %v: %s", mode, dup, ftree.Dump(root))
